@@ -186,6 +186,22 @@ def run_check(pid, tier="quick", update_baseline=False, seed=0, verbose=False):
             json.dump(rec, f, indent=1, default=str)
         violations.append((g, rp, found))
 
+    # ---- bounded stand-ins that are part of the quick tier (labelled bounded, never counted as discharged)
+    meta = getattr(R, "prop_meta", {}).get(pid, {})
+    bounded_runs = []
+    if meta.get("bounded_in_quick") and not violations:
+        rec = {}
+        t0 = time.time()
+        found = run_replay(pid, "bounded-stand-in", None, rec)
+        res = rec.get("replay") if isinstance(rec.get("replay"), dict) else {"error": str(rec.get("replay"))}
+        bounded_runs.append(dict(label="bounded (not a proof)", what=meta["bounded_in_quick"], harness=f"replay/{pid}.py",
+                                 cases_tried=res.get("tried"), found=bool(found), wall_s=round(time.time() - t0, 1)))
+        if found:
+            rp = os.path.join(HERE, "replays", pid, "bounded-stand-in.json")
+            with open(rp, "w") as f:
+                json.dump(dict(property=pid, obligation="bounded stand-in: " + meta["bounded_in_quick"], replay=res, repo=repo_root()), f, indent=1, default=str)
+            violations.append(("bounded stand-in: " + meta["bounded_in_quick"], rp, True))
+
     # ---- evidence
     n_obl = sum(1 for v in verdicts if v.vc.expect == "unsat" and group_name(v.vc) not in eng.known)
     n_dis = sum(1 for v in verdicts if v.vc.expect == "unsat" and v.status == "proved" and group_name(v.vc) not in eng.known)
@@ -206,7 +222,6 @@ def run_check(pid, tier="quick", update_baseline=False, seed=0, verbose=False):
         if v.smt2 and v.vc.expect == "unsat":
             samples.append(dict(obligation=group_name(v.vc), status=v.status, solver=v.solver, time_s=round(v.time, 4),
                                 smt2_head=v.smt2[-1200:]))
-    meta = getattr(R, "prop_meta", {}).get(pid, {})
     ev = dict(
         property_id=pid, tier=tier, seed=seed, level="proof",
         coverage=dict(
@@ -229,7 +244,7 @@ def run_check(pid, tier="quick", update_baseline=False, seed=0, verbose=False):
             vanished_baseline_obligations=vanished,
             new_undecided=[g for g, _, _ in undecided_new],
             samples=samples,
-            bounded=meta.get("bounded", []), not_decided=meta.get("not_decided", []),
+            bounded=meta.get("bounded", []) + bounded_runs, not_decided=meta.get("not_decided", []),
             cross_check=[dict(obligation=group_name(v.vc), **v.vc.meta["cross"]) for v in verdicts if "cross" in v.vc.meta][:400],
         ),
         assumptions=sorted(set(assumptions)) + meta.get("assumptions", []),
